@@ -197,9 +197,9 @@ Proof.
   destruct (rindex names (cb_before c)); discriminate.
 Qed.
 
-Lemma do_before_fuel : forall names st c, do_before names st c <> OutOfFuel.
+Lemma do_before_fuel : forall names st c st' n, do_before names st c <> Cyclic st' n.
 Proof.
-  intros names st c. unfold do_before.
+  intros names st c st' n. unfold do_before.
   destruct (is_none (cb_before c)); [discriminate|].
   destruct (is_star (cb_before c) && nonempty (s_sorted st)).
   { destruct (absent (s_sorted st) (cb_name c)); discriminate. }
@@ -214,7 +214,7 @@ Lemma do_after_inv : forall ks names st c,
   match do_after names st c with
   | ADone (Done st') => inv ks names st' /\ grows st st'
   | ADone (Conflict st' _ _) => st' = st
-  | ADone OutOfFuel => False
+  | ADone (Cyclic _ _) => False
   | ARec idx st2 => inv ks names st2 /\ s_sorted st2 = s_sorted st
                     /\ rindex names (cb_after c) = Some idx
   end.
@@ -269,15 +269,17 @@ Lemma sort_cb_inv : forall fuel ks names st i,
   | Done st' => inv ks names st' /\ grows st st'
                 /\ (forall c, nth_error (s_cs st) i = Some c -> In (cb_name c) (s_sorted st'))
   | Conflict st' _ _ => inv ks names st'
-  | OutOfFuel => True
+  | Cyclic st' _ => inv ks names st'
   end.
 Proof.
-  induction fuel as [|f IH]; intros ks names st i I; cbn [sort_cb]; [exact Logic.I|].
+  induction fuel as [|f IH]; intros ks names st i I; cbn [sort_cb].
+  { destruct (nth_error (s_cs st) i) as [c|]; [exact I|].
+    split; [exact I|]. split; [red; auto with datatypes|]. intros c0 H. discriminate. }
   destruct (nth_error (s_cs st) i) as [c|] eqn:Ec.
   2:{ split; [exact I|]. split; [red; auto with datatypes|]. intros c0 H. discriminate. }
   assert (Hin : In (cb_name c) names) by (eapply inv_name_in; eauto).
-  destruct (do_before names st c) as [st1|st1 n t|] eqn:Eb.
-  3:{ exact Logic.I. }
+  destruct (do_before names st c) as [st1|st1 n t|st1 n] eqn:Eb.
+  3:{ exfalso. eapply do_before_fuel; eauto. }
   2:{ apply (do_before_conflict ks) in Eb; auto. subst st1. exact I. }
   destruct (do_before_inv _ _ _ _ _ I Hin Eb) as [I1' G1].
   destruct (nth_error (s_cs st1) i) as [c1|] eqn:Ec1.
@@ -291,20 +293,20 @@ Proof.
   { pose proof (inv_nth_name _ _ _ _ _ I Ec) as A. pose proof (inv_nth_name _ _ _ _ _ I1' Ec1) as B. congruence. }
   assert (Hin1 : In (cb_name c1) names) by (rewrite Hn1; exact Hin).
   pose proof (do_after_inv ks names st1 c1 I1' Hin1) as HA.
-  destruct (do_after names st1 c1) as [[st4|st4 n t|]|idx st2] eqn:Ea.
+  destruct (do_after names st1 c1) as [[st4|st4 n t|st4 n]|idx st2] eqn:Ea.
   - destruct HA as [I4 G4].
     destruct (finish_inv ks names st4 (cb_name c) I4 Hin) as (I5 & G5 & H5).
     split; [exact I5|]. split.
     + red in G1, G4, G5 |- *. eapply incl_tran; [exact G1|]. eapply incl_tran; [exact G4|exact G5].
     + intros c0 [= <-]. exact H5.
   - subst st4. exact I1'.
-  - exact Logic.I.
+  - destruct HA.
   - destruct HA as (I2 & S2 & _).
     pose proof (IH ks names st2 idx I2) as H3.
-    destruct (sort_cb f names st2 idx) as [st3|st3 n t|]; [|exact H3|exact Logic.I].
+    destruct (sort_cb f names st2 idx) as [st3|st3 n t|st3 n]; [|exact H3|exact H3].
     destruct H3 as (I3 & G3 & _).
     pose proof (IH ks names st3 i I3) as H4.
-    destruct (sort_cb f names st3 i) as [st4|st4 n t|]; [|exact H4|exact Logic.I].
+    destruct (sort_cb f names st3 i) as [st4|st4 n t|st4 n]; [|exact H4|exact H4].
     destruct H4 as (I4 & G4 & _).
     destruct (finish_inv ks names st4 (cb_name c) I4 Hin) as (I5 & G5 & H5).
     split; [exact I5|]. split.
@@ -328,16 +330,16 @@ Lemma sort_loop_inv : forall n fuel ks names st i,
   | Done st' => inv ks names st' /\ grows st st'
                 /\ (forall j s, i <= j < i + n -> nth_error names j = Some s -> In s (s_sorted st'))
   | Conflict st' _ _ => inv ks names st'
-  | OutOfFuel => True
+  | Cyclic st' _ => inv ks names st'
   end.
 Proof.
   induction n as [|m IH]; intros fuel ks names st i I; cbn [sort_loop].
   - split; [exact I|]. split; [red; auto with datatypes|]. intros j s Hj. lia.
   - pose proof (sort_cb_inv fuel ks names st i I) as H1.
-    destruct (sort_cb fuel names st i) as [st1|st1 n t|]; [|exact H1|exact Logic.I].
+    destruct (sort_cb fuel names st i) as [st1|st1 n t|st1 n]; [|exact H1|exact H1].
     destruct H1 as (I1 & G1 & C1).
     pose proof (IH fuel ks names st1 (S i) I1) as H2.
-    destruct (sort_loop fuel names st1 (S i) m) as [st2|st2 n t|]; [|exact H2|exact Logic.I].
+    destruct (sort_loop fuel names st1 (S i) m) as [st2|st2 n t|st2 n]; [|exact H2|exact H2].
     destruct H2 as (I2 & G2 & C2).
     split; [exact I2|]. split; [red in G1, G2 |- *; eapply incl_tran; eassumption|].
     intros j s Hj Hs. destruct (Nat.eq_dec j i) as [->|Hne].
@@ -404,7 +406,7 @@ Proof.
   intros cs0 cs fns H Hr. unfold sort_callbacks in H.
   set (ps := presort cs0) in *.
   pose proof (sort_loop_inv (length ps) (depth_fuel ps) _ _ _ O (inv_init ps)) as L.
-  destruct (sort_loop (depth_fuel ps) (map cb_name ps) (mk_sst ps []) 0 (length ps)) as [st|st n t|];
+  destruct (sort_loop (depth_fuel ps) (map cb_name ps) (mk_sst ps []) 0 (length ps)) as [st|st n t|st n];
     [|discriminate|discriminate].
   injection H as <- <-. destruct L as (I & _ & C).
   assert (Hrem : forall c, In c (s_cs st) -> cb_remove c = false).
@@ -430,7 +432,18 @@ Proof.
   intros cs0 cs n t H. unfold sort_callbacks in H.
   set (ps := presort cs0) in *.
   pose proof (sort_loop_inv (length ps) (depth_fuel ps) _ _ _ O (inv_init ps)) as L.
-  destruct (sort_loop (depth_fuel ps) (map cb_name ps) (mk_sst ps []) 0 (length ps)) as [st|st n' t'|];
+  destruct (sort_loop (depth_fuel ps) (map cb_name ps) (mk_sst ps []) 0 (length ps)) as [st|st n' t'|st n'];
     [discriminate| |discriminate].
   injection H as <- _ _. apply (inv_keys _ _ _ L).
+Qed.
+
+Lemma sort_callbacks_cyc_keys : forall cs0 cs n,
+  sort_callbacks cs0 = SCyc cs n -> map key cs = map key (presort cs0).
+Proof.
+  intros cs0 cs n H. unfold sort_callbacks in H.
+  set (ps := presort cs0) in *.
+  pose proof (sort_loop_inv (length ps) (depth_fuel ps) _ _ _ O (inv_init ps)) as L.
+  destruct (sort_loop (depth_fuel ps) (map cb_name ps) (mk_sst ps []) 0 (length ps)) as [st|st n' t'|st n'];
+    [discriminate|discriminate|].
+  injection H as <- _. apply (inv_keys _ _ _ L).
 Qed.
